@@ -4,4 +4,4 @@ Require Import ExtrOcamlBasic.
 From Verif Require Import MemBuf.Model.
 Extraction Language OCaml.
 Extraction "membuf_model.ml"
-  Z.of_N init0 init1 step0 step1 step01 hazard1 flag_op_of_index reg1 wseq1 sseq1 stages1 log1 lex_cmp is_mutator unlimited.
+  Z.of_N init0 init1 step0 step1 step01 flag_op_of_index reg1 wseq1 sseq1 stages1 log1 lex_cmp is_mutator unlimited.
